@@ -163,6 +163,14 @@ def plain (frame : List Name) (p : Parent) (deps : List Dep) (extra : List Name 
   if cu = .many frame then none
   else some { childs := [some cu], keep := !(decide (cu = p.operand)) }
 
+/-- `plain_column_projection` for a class with a dict parameter that is keyed by column labels (`Fillna`, `Replace`:
+    `_column_keyed_parameters`, since D112): a scalar selection of a frame column does not collapse the input to a
+    series — the input keeps the one column as a FRAME and the parent selection is applied again. -/
+def plainDict (frame : List Name) (p : Parent) (deps : List Dep) : Option Rw :=
+  match plainSel frame (detProj p deps []) with
+  | .one c => if [c] = frame then none else some { childs := [some (.many [c])], keep := true }
+  | _ => plain frame p deps
+
 /-! ### `_simplify_down` rules -/
 
 inductive Down where
